@@ -43,10 +43,21 @@ def main():
         out["confirmed"] = bool(out["patch_applies"] and rc0 == 0 and rc1 != 0 and "31 passed" in ot)
     finally:
         sh("git -C /repo worktree remove --force %s" % wt)
-    # run the checks on /repo with the change applied
-    rc, o = sh("git -C /repo status --porcelain")
-    assert o.strip() == "", "/repo is not clean: " + o
-    rc, o = sh("git -C /repo apply %s" % os.path.abspath(patch))
+    # run the checks on /repo with the change applied (VERIF_SEED_SCRATCH=1: on a scratch worktree of /repo instead, with
+    # the checks of the copy of /verif named by VERIF_CHECK_ROOT - used while other jobs need /repo and /verif/coq untouched)
+    scratch = os.environ.get("VERIF_SEED_SCRATCH") == "1"
+    check_root = os.environ.get("VERIF_CHECK_ROOT", ROOT)
+    target = "/repo"
+    cenv = dict(os.environ)
+    if scratch:
+        target = tempfile.mkdtemp(prefix="seedrepo-")
+        os.rmdir(target)
+        rc, o = sh("git -C /repo worktree add -q --detach %s HEAD" % target)
+        assert rc == 0, o
+        cenv["VERIF_REPO"] = target
+    rc, o = sh("git -C %s status --porcelain" % target)
+    assert o.strip() == "", "%s is not clean: %s" % (target, o)
+    rc, o = sh("git -C %s apply %s" % (target, os.path.abspath(patch)))
     assert rc == 0, o
     # the evidence file of the property records runs on the UNCHANGED tree only: put it back afterwards
     evf = os.path.join(ROOT, "evidence", "%s.json" % prop)
@@ -54,7 +65,7 @@ def main():
     try:
         out["checks"] = {}
         for tier in tiers:
-            rc, o = sh("./check %s --tier %s" % (prop, tier), cwd=ROOT, timeout=3600)
+            rc, o = sh("./check %s --tier %s" % (prop, tier), cwd=check_root, env=cenv, timeout=3600)
             lines = [l for l in o.split("\n") if l.startswith(("VIOLATION", "KNOWN-FINDING", "OK"))]
             det = []
             for l in lines:
@@ -70,7 +81,10 @@ def main():
             if any(d.get("failing_input") for d in det):
                 break
     finally:
-        sh("git -C /repo checkout -- .")
+        if scratch:
+            sh("git -C /repo worktree remove --force %s" % target)
+        else:
+            sh("git -C /repo checkout -- .")
         if saved_ev is not None:
             open(evf, "wb").write(saved_ev)
     rc, o = sh("git -C /repo status --porcelain")
